@@ -410,13 +410,38 @@ func c03Disc(raw json.RawMessage, res map[string]any) {
 			}
 		}
 		in = append(in, c03RPkt{data: pkt, from: from})
-		// the oracle: pion's view of this packet
+		oracle = append(oracle, []any{"pkt"})
+	}
+	pc := &c03RPC{in: append([]c03RPkt(nil), in...)}
+	p, msg := vCatch(func() {
+		addrs, err := Discover(context.Background(), pc, STUNConfig{Servers: []string{"10.9.9.9"}, Resolver: c03Resolver{}, Timeout: 5 * time.Second})
+		out := [][]any{}
+		for _, a := range addrs {
+			out = append(out, []any{vHex(a.Addr().AsSlice()), int(a.Port())})
+		}
+		sort.Slice(out, func(i, j int) bool { return out[i][0].(string) < out[j][0].(string) })
+		res["addrs"] = out
+		res["err"] = err != nil
+		res["errinval"] = err != nil && errors.Is(err, ErrInvalidSTUNConfig)
+	})
+	// the oracle: pion's view of every packet AS DELIVERED (the request's transaction id, known
+	// only after Discover has sent it, substituted for the placeholder)
+	var real [stun.TransactionIDSize]byte
+	copy(real[:], pc.txid)
+	for i, k := range in {
+		if k.err != nil {
+			continue
+		}
+		pkt := append([]byte(nil), k.data...)
+		if len(pkt) >= 20 && string(pkt[8:20]) == string(c03TxPlaceholder) {
+			copy(pkt[8:20], pc.txid)
+		}
 		row := []any{"pkt"}
 		m := stun.New()
-		if err := stun.Decode(append([]byte(nil), pkt...), m); err != nil {
+		if err := stun.Decode(pkt, m); err != nil {
 			row = append(row, false)
 		} else {
-			row = append(row, true, m.Type == stun.BindingSuccess, m.TransactionID == own)
+			row = append(row, true, m.Type == stun.BindingSuccess, m.TransactionID == real)
 			var x stun.XORMappedAddress
 			if err := x.GetFrom(m); err == nil {
 				row = append(row, []any{vHex(x.IP), x.Port})
@@ -430,20 +455,9 @@ func c03Disc(raw json.RawMessage, res map[string]any) {
 				row = append(row, nil)
 			}
 		}
-		oracle = append(oracle, row)
+		oracle[i] = row
 	}
 	res["oracle"] = oracle
-	p, msg := vCatch(func() {
-		addrs, err := Discover(context.Background(), &c03RPC{in: in}, STUNConfig{Servers: []string{"10.9.9.9"}, Resolver: c03Resolver{}, Timeout: 5 * time.Second})
-		out := [][]any{}
-		for _, a := range addrs {
-			out = append(out, []any{vHex(a.Addr().AsSlice()), int(a.Port())})
-		}
-		sort.Slice(out, func(i, j int) bool { return out[i][0].(string) < out[j][0].(string) })
-		res["addrs"] = out
-		res["err"] = err != nil
-		res["errinval"] = err != nil && errors.Is(err, ErrInvalidSTUNConfig)
-	})
 	res["panic"] = p
 	res["ok"] = !p
 	res["why"] = ""
